@@ -253,8 +253,9 @@ impl RK23 {
                 // x + (xend - x) can round to a neighbour of xend: land exactly
                 x = if last { xend } else { x + h };
 
-                // Prepare dense output
-                if self.dense_output && solout.is_some() {
+                // Prepare dense output (always, or on demand when a requested output point was reached)
+                let event = xout.map_or(false, |xo| xo <= x);
+                if (self.dense_output || event) && solout.is_some() {
                     cont[0..n].copy_from_slice(&ye);
                     for i in 0..n {
                         cont[n + i] = k1[i];
@@ -265,7 +266,6 @@ impl RK23 {
 
                 // Optional callback function
                 if let Some(sol) = solout.as_mut() {
-                    let event = xout.map_or(false, |xo| xo <= x);
                     let interpolant = if self.dense_output || event {
                         Some(StepInterpolant::new(&cont, xold, h, Self::interpolate))
                     } else {
